@@ -5,9 +5,10 @@
 //   -DCFG_L=4        substitution limit
 //   -DCFG_CAP=0      task capacity (0 = library default = N)
 //   -DCFG_PAYLOAD=0  0 void | 1 1-byte struct | 2 3-byte | 3 {i32,char[8]} | 4 double | 5 alignas(16) 32 bytes | 6 64 bytes
-//   -DCFG_CTX=1      0 empty | 1 value | 2 reference | 3 pointer
+//   -DCFG_CTX=1      0 empty | 1 value | 2 reference | 3 pointer | 4 one-byte value
 //   -DCFG_INJ=0      injections per state (0..3)
 //   -DCFG_BARE=0     the last CFG_BARE states define no callbacks at all
+//   -DCFG_ORDER=0    order in which the configuration aliases are applied (0..3)
 // plus the library's own FFSM2_ENABLE_* switches on the command line.
 #pragma once
 
@@ -143,6 +144,10 @@ using Context = CtxData;
 using Context = CtxData&;
 #elif CFG_CTX == 3
 using Context = CtxData*;
+#elif CFG_CTX == 4
+// the smallest possible value context: with no optional feature the whole machine core is then a few bytes
+struct TinyCtx { uint8_t v = 0x5A; };
+using Context = TinyCtx;
 #else
 #error "unknown CFG_CTX"
 #endif
@@ -150,24 +155,41 @@ using Context = CtxData*;
 // ---------------------------------------------------------------------------
 // machine type
 
-template <typename TCfg, bool>
-struct ManualIf { using Type = TCfg; };
-template <typename TCfg>
-struct ManualIf<TCfg, true> { using Type = typename TCfg::ManualActivation; };
+// The configuration is assembled from the documented aliases (ContextT, ManualActivation,
+// SubstitutionLimitN, TaskCapacityN, PayloadT).  Each alias must carry all the other settings over, so the
+// order of application is varied (-DCFG_ORDER=0..3).
+#ifndef CFG_ORDER
+#define CFG_ORDER 0
+#endif
 
+template <typename TCfg> struct WithContext { using Type = typename TCfg::template ContextT<Context>; };
+template <typename TCfg> struct WithLimit { using Type = typename TCfg::template SubstitutionLimitN<CFG_L>; };
+template <typename TCfg> struct WithManual { using Type = typename ffsm2::Conditional<MANUAL, typename TCfg::ManualActivation, TCfg>; };
 #if CFG_PAYLOAD == 0
-using Cfg0 = ffsm2::Config::ContextT<Context>::SubstitutionLimitN<CFG_L>;
+template <typename TCfg> struct WithPayload { using Type = TCfg; };
 #else
-using Cfg0 = ffsm2::Config::ContextT<Context>::SubstitutionLimitN<CFG_L>::PayloadT<Payload>;
+template <typename TCfg> struct WithPayload { using Type = typename TCfg::template PayloadT<Payload>; };
 #endif
-
 #if HAS_PLANS && CFG_CAP != 0
-using Cfg1 = Cfg0::TaskCapacityN<CFG_CAP>;
+template <typename TCfg> struct WithCapacity { using Type = typename TCfg::template TaskCapacityN<CFG_CAP>; };
 #else
-using Cfg1 = Cfg0;
+template <typename TCfg> struct WithCapacity { using Type = TCfg; };
 #endif
 
-using Config = ManualIf<Cfg1, MANUAL>::Type;
+template <template <typename> class... TSteps> struct Apply;
+template <> struct Apply<> { template <typename T> using To = T; };
+template <template <typename> class TFirst, template <typename> class... TRest>
+struct Apply<TFirst, TRest...> { template <typename T> using To = typename Apply<TRest...>::template To<typename TFirst<T>::Type>; };
+
+#if CFG_ORDER == 0
+using Config = Apply<WithContext, WithLimit, WithPayload, WithCapacity, WithManual>::To<ffsm2::Config>;
+#elif CFG_ORDER == 1
+using Config = Apply<WithManual, WithCapacity, WithPayload, WithLimit, WithContext>::To<ffsm2::Config>;
+#elif CFG_ORDER == 2
+using Config = Apply<WithLimit, WithManual, WithContext, WithCapacity, WithPayload>::To<ffsm2::Config>;
+#else
+using Config = Apply<WithPayload, WithContext, WithCapacity, WithManual, WithLimit>::To<ffsm2::Config>;
+#endif
 using M = ffsm2::MachineT<Config>;
 
 template <unsigned I> struct St;   // fully instrumented state
@@ -191,7 +213,8 @@ using FSM = MakeFsm<std::make_index_sequence<N>>::Type;
 using Instance = FSM::Instance;
 
 #if HAS_PLANS
-constexpr unsigned CAP = FSM::TASK_CAPACITY;
+// the capacity the configuration ASKS for (not what the library derived from it): TaskCapacityN<CFG_CAP>, default = state count
+constexpr unsigned CAP = CFG_CAP != 0 ? CFG_CAP : N;
 #else
 constexpr unsigned CAP = 0;
 #endif
